@@ -245,7 +245,7 @@ Proof.
   - right; left; reflexivity.
   - destruct (venum s e); [right; left; reflexivity|right; right; split; [exact I|reflexivity]].
   - destruct (count <? 0); [right; right; split; [exact I|reflexivity]|]. destruct (count =? 0); [right; right; split; [exact I|reflexivity]|].
-    destruct (gsize <? 0); [right; right; split; [exact I|reflexivity]|]. destruct (gsize =? 0); [right; right; split; [exact I|reflexivity]|]. right; left; reflexivity.
+    destruct (gsize <? 0); [right; right; split; [exact I|reflexivity]|]. destruct (gsize =? 0); [right; right; split; [exact I|reflexivity]|]. destruct (2 ^ 63 - 65 <? gsize); [right; right; split; [exact I|reflexivity]|]. right; left; reflexivity.
   - destruct (vmsg s m && vsig s x); [|right; right; split; [exact I|reflexivity]]. unfold step_append.
     destruct (memb x (gnames s m)); [right; right; split; [exact I|reflexivity]|].
     destruct (verify_append _ _ _ _ _); [right; right; split; [exact I|reflexivity]|]. right; left; reflexivity.
